@@ -141,7 +141,10 @@ def extractor_specs():
 
         st.sampled_from(RAISABLE).map(lambda i: {"raise": i}),
     )
-    return st.lists(st.tuples(st.integers(0, len(EXTRACTOR_CLASSES) - 1), beh).map(list), max_size=5)
+    general = st.lists(st.tuples(st.integers(0, len(EXTRACTOR_CLASSES) - 1), beh).map(list), max_size=5)
+    # registrations on the broad base classes hit every failing action: keep them frequent
+    broad = st.tuples(st.sampled_from([0, 0, 1]), beh).map(list)
+    return st.one_of(general, st.tuples(broad, general).map(lambda p: [p[0]] + p[1]))
 
 
 def strategy():
